@@ -2,6 +2,8 @@ import TdVerif.Sexp
 import TdVerif.Model.C08Lazy
 import TdVerif.Model.C08Lazy2
 import TdVerif.Model.C08Apply
+import TdVerif.Model.C08Reduce
+import TdVerif.Model.C08Resize
 
 namespace TdVerif.Drive
 open TdVerif Sexp TdVerif.C08
@@ -225,7 +227,37 @@ def handleC08 (cmd : String) (args : List Sexp) : Option Sexp :=
       | "twice_plus" => pure (membersToSexp (lazyApply2 L other fun x y => 2 * x + y))
       | "sub" => pure (membersToSexp (lazyApply2 L other fun x y => x - y))
       | "where_lt" => pure (membersToSexp (lazyApply2 L other fun x y => if x % 3 = 0 then x else y))
+      -- comparisons (`_dispatch_comparison`): the Bool result is printed as 0 / 1
+      | "lt_other" => pure (membersToSexp ((lazyCompare L other fun x y => decide (x < y)).map fun Lb => lazyApply1 Lb fun b => if b then (1 : Int) else 0))
+      | "ge_other_shift" => pure (membersToSexp ((lazyCompare L other fun x y => decide (x + 1000003 ≥ y)).map fun Lb => lazyApply1 Lb fun b => if b then (1 : Int) else 0))
+      | "gt_scalar" => pure (membersToSexp (some (lazyApply1 (lazyCompareScalar L 10001 fun x y => decide (x > y)) fun b => if b then (1 : Int) else 0)))
+      -- reductions without dim over a comparison: (all, any)
+      | "all_any_gt" =>
+          let Lb := lazyCompareScalar L 10001 fun x y => decide (x > y)
+          pure (tagged "ok" [boolS (lazyAll Lb), boolS (lazyAny Lb)])
+      | "all_any_ge0" =>
+          let Lb := lazyCompareScalar L 0 fun x y => decide (x ≥ y)
+          pure (tagged "ok" [boolS (lazyAll Lb), boolS (lazyAny Lb)])
       | _ => none
+  -- (c08.resize (bs ..) n sd (feats ..) (split dim s ..) | (split_int size dim) | (repeat_interleave k dim) | (repeat r ..))
+  | "c08.resize", [bs, n, sd, feats, .list (.atom op :: args)] => do
+      let bs ← shapeOf? bs
+      let n ← asNat? n
+      let sd ← asNat? sd
+      let feats ← featsOf? feats
+      let args ← ints? args
+      let L := mkLazy bs n sd feats
+      let pieces (r : Option (List (LRes Int))) : Sexp :=
+        match r with
+        | none => tagged "err" []
+        | some ps => tagged "ok" (ps.map fun p => resToSexp (some p))
+      match op, args with
+      | "split", dim :: sizes => pure (pieces (lazySplit L (sizes.map Int.toNat) dim))
+      | "split_int", [size, dim] => pure (pieces (lazySplitInt L size.toNat dim))
+      | "repeat_interleave", [k, dim] => pure (membersToSexp (lazyRepeatInterleave L k.toNat dim))
+      | "repeat", reps => pure (membersToSexp (lazyRepeat L (reps.map Int.toNat)))
+      | "expand", shape => pure (membersToSexp (lazyExpand L (shape.map Int.toNat)))
+      | _, _ => none
   -- (c08.get2 (bs ..) n_in n_out sd_in sd_out (feats ..) (ix ..)) : read on a stack of stacks
   | "c08.get2", [bs, nin, nout, sdin, sdout, feats, ix] => do
       let bs ← shapeOf? bs
@@ -237,6 +269,26 @@ def handleC08 (cmd : String) (args : List Sexp) : Option Sexp :=
       let ix ← ixsOf? ix
       let L2 : Lazy2 Int := ⟨(List.range nout).map fun j => mkOperand bs nin sdin feats j, sdout⟩
       pure (res2ToSexp (lazyGet2 L2 ix))
+  -- (c08.shape2 (bs ..) n_in n_out sd_in sd_out (feats ..) (unsqueeze d) | (permute d ..) | (transpose a b)) : shape op on a stack of stacks
+  | "c08.shape2", [bs, nin, nout, sdin, sdout, feats, .list (.atom op :: args)] => do
+      let bs ← shapeOf? bs
+      let nin ← asNat? nin
+      let nout ← asNat? nout
+      let sdin ← asNat? sdin
+      let sdout ← asNat? sdout
+      let feats ← featsOf? feats
+      let args ← ints? args
+      let L2 : Lazy2 Int := ⟨(List.range nout).map fun j => mkOperand bs nin sdin feats j, sdout⟩
+      let out (r : Option (Lazy2 Int)) : Sexp :=
+        match r with
+        | none => tagged "err" []
+        | some R => tagged "ok" (tagged "kind" [.atom "lazy2", ofNat R.sd, ofNat R.members.length,
+            tagged "inner_sd" (R.members.map fun Li => ofNat Li.sd)] :: tdToSexp (abs2 R))
+      match op, args with
+      | "unsqueeze", [d] => pure (out (lazyUnsqueeze2 L2 d))
+      | "permute", ds => pure (out (lazyPermute2 L2 ds))
+      | "transpose", [a, b] => pure (out (lazyTranspose2 L2 a b))
+      | _, _ => none
   | "c08.split", [bs, n, sd, ix] => do
       let bs ← shapeOf? bs
       let n ← asNat? n
